@@ -40,13 +40,13 @@ TWrite ==
      IN
      /\ wrefs' = refs /\ wlogs' = logs /\ lim' = <<E.min, E.max>>
      /\ fails' = Fail(\A i \in DOMAIN E.calls : E.calls[i].ok = Accept(E.calls[i], E.exact), "C01_AcceptReject")
-            \cup Cmp(E.close, IF refs = <<>> /\ logs = <<>> THEN "empty" ELSE "ok", "C01_Close")
+            \cup (IF E.big THEN Fail(E.close = "ok", "C01_Close") ELSE Cmp(E.close, IF refs = <<>> /\ logs = <<>> THEN "empty" ELSE "ok", "C01_Close"))
   /\ Step
 
 TScan ==
   /\ Is("scan")
   /\ fails' = Fail(E.err = "", "C01_ScanFails") \cup Cmp(E.refs, wrefs, "C01_RefsReadBack") \cup Cmp(E.logs, wlogs, "C01_LogsReadBack")
-             \cup Cmp(<<E.min, E.max>>, lim, "C01_Limits")
+             \cup Cmp(<<E.min, E.max>>, lim, "C01_Limits") \cup Cmp(E.reuse, "", "C01_StableResults")
   /\ UNCHANGED <<wrefs, wlogs, lim>> /\ Step
 
 TSeekRef ==
@@ -79,7 +79,16 @@ TLayout ==
         \cup Cmp(<<E.min, E.max>>, lim, "C14_HeaderLimits")
   /\ UNCHANGED <<wrefs, wlogs, lim>> /\ Step
 
+(* a table too large for TLC to hold (e.g. 66000 records in one block): the driver compared the scan *)
+(* with the written records and the decoder checked the bytes; only the verdicts arrive here         *)
+TBig ==
+  /\ Is("big")
+  /\ fails' = Fail(E.err = "", "C01_ScanFails") \cup Fail(E.refsequal /\ E.nrefs = E.wrefs, "C01_RefsReadBack")
+            \cup Fail(E.logsequal /\ E.nlogs = E.wlogs, "C01_LogsReadBack") \cup Cmp(E.reuse, "", "C01_StableResults")
+            \cup Cmp(E.problems, <<>>, "C14_ByteLevel")
+  /\ UNCHANGED <<wrefs, wlogs, lim>> /\ Step
+
 TDone == l > Len(Ev) /\ UNCHANGED vars
-TSpec == TInit /\ [][TWrite \/ TScan \/ TSeekRef \/ TSeekLog \/ TRefsFor \/ TLayout \/ TDone]_vars
+TSpec == TInit /\ [][TWrite \/ TBig \/ TScan \/ TSeekRef \/ TSeekLog \/ TRefsFor \/ TLayout \/ TDone]_vars
 T_All == fails = {} \/ (PrintT(<<"VIOL", fails, Traces[tr].id, l - 1>>) /\ FALSE)
 =============================================================================
